@@ -273,45 +273,9 @@ func c07(c *Ctx) {
 	c.Count(cfo, lhs.StoredIs("0"), 1, 1)
 	c.Count(cfo, lhs.StoredIs("$0.StreamID"), 1, 1)
 	c.Guard(cfo, lhs, "!$r.AllowIllegalReads")
-	// the stores happen for HEADERS and CONTINUATION only: they lie inside the switch clause listing exactly those two types
-	if fn := c.MustFn(cfo); fn != nil {
-		pk := c.P.PkgOfFn(fn)
-		var clause *ast.CaseClause
-		nClauses := 0
-		ast.Inspect(fn.Syntax(), func(n ast.Node) bool {
-			sw, isSw := n.(*ast.SwitchStmt)
-			if !isSw || sw.Tag == nil || Short(types.TypeString(pk.TypesInfo.TypeOf(sw.Tag), nil)) != "http2.FrameType" {
-				return true
-			}
-			for _, cl := range sw.Body.List {
-				cc := cl.(*ast.CaseClause)
-				nClauses++
-				vals := map[int64]bool{}
-				for _, e := range cc.List {
-					if v, isInt := IntOf(pk, e); isInt {
-						vals[v] = true
-					}
-				}
-				h, _ := c.P.ConstInt("http2.FrameHeaders")
-				cn, _ := c.P.ConstInt("http2.FrameContinuation")
-				if len(cc.List) == 2 && vals[h] && vals[cn] {
-					clause = cc
-				}
-			}
-			return true
-		})
-		bad := ""
-		if clause == nil {
-			bad = "no switch clause `case FrameHeaders, FrameContinuation`"
-		} else {
-			for _, in := range lhs.F(c.P, fn) {
-				if p := InstrPos(in); p < clause.Pos() || p > clause.End() {
-					bad = "a store to lastHeaderStream at " + c.P.Pos(p) + " lies outside the HEADERS/CONTINUATION clause"
-				}
-			}
-		}
-		c.Check(bad == "", "switch-covers", cfo+": lastHeaderStream is updated for HEADERS and CONTINUATION and for no other type", fn.Pos(), fmt.Sprintf("%d clause(s)", nClauses), bad)
-	}
+	// the stores happen for HEADERS and CONTINUATION only: a frame of any other type never reaches them
+	// (form-independent: holds for `switch fh.Type { case FrameHeaders, FrameContinuation: }` and for an if with ||)
+	c.Reject(cfo, lhs, "$0.Type != @http2.FrameHeaders", "$0.Type != @http2.FrameContinuation")
 	{
 		a, okA := c.P.ConstInt("http2.FlagHeadersEndHeaders")
 		b, okB := c.P.ConstInt("http2.FlagContinuationEndHeaders")
